@@ -213,6 +213,12 @@ def generate(seed, tier):
         add("hyperv", base=r, mut=["none"])
         for _ in range(12):
             add("hyperv", base=r, mut=gen_mutation(rng, {"a": im}))
+    # object tables that list their successor several times (no cycle): each table must still be loaded once
+    for depth in (16, 20, 24, 28):
+        r = gen_hyperv.gen_recipe(rng, "quick")
+        r = copy.deepcopy(r)
+        r["objs"] = [o for o in r["objs"] if o[1] != "ot"] + [[k, "ot", k + 1] for k in range(depth) for _ in range(rng.choice([2, 2, 3]))]
+        add("hyperv", base=r, mut=["none"], variant=["repeated-object-table-references", depth])
     for i in range(4 * mult):
         r = gen_envelope.gen_recipe(rng, "quick")
         data = gen_envelope.build(r)["envelope"]
@@ -479,6 +485,8 @@ def model_lines(case, built):
         return [f"hdd.chain {null} {g} " + " ".join(f"{a}>{p}" for a, p in shots) for g, _ in sorted(shots)]
     if fam == "vmtar":
         return core.file_lines(built.files) + ["vmtar.list a 1"]
+    if fam == "hyperv":
+        return core.file_lines(built.files) + ["hyperv.tree a"]
     return []
 
 
@@ -490,7 +498,7 @@ def model_parse(case, built, out):
 
 
 def nontrivial(case, built, model):
-    return built.info["mutated"] or case["fam"] in ("vmdk-bomb", "qcow2-bomb", "hdd-graph")
+    return built.info["mutated"] or case["fam"] in ("vmdk-bomb", "qcow2-bomb", "hdd-graph") or bool(case.get("variant"))
 
 
 def search(seed, broken, budget):
